@@ -22,6 +22,19 @@ from engine.rt import fail  # noqa: E402
 from harness.c10 import (REAL_TABLE, RESERVED, STUB_TABLE, UNRESERVED, _ECLS, _ECLS_DESC, _encoders, _fully_escaped,  # noqa: E402
                          is_reserved, is_unreserved, ref_decode)
 
+import http.cookies as _hc  # noqa: E402
+
+
+def _fixed_getdate(future=0, weekdayname=_hc._weekdayname, monthname=_hc._monthname):
+    # http.cookies._getdate with the clock pinned to 1e9 (expires=-1 means "now - 1 s"; the real one reads time.time(),
+    # which the engine models as a fresh symbolic float)
+    import time as _t
+    year, month, day, hh, mm, ss, wd, y, z = _t.gmtime(1000000000 + future)
+    return '%s, %02d %3s %4d %02d:%02d:%02d GMT' % (weekdayname[wd], day, monthname[month], year, hh, mm, ss)
+
+
+_hc._getdate = _fixed_getdate
+
 PROPERTY = 'C15'
 UNITS = ['falcon.response.Response.set_header/append_header/delete_header/set_headers/get_header/headers',
          'typed header properties (content_type, cache_control, etag, vary, retry_after, content_length, location, '
@@ -29,6 +42,7 @@ UNITS = ['falcon.response.Response.set_header/append_header/delete_header/set_he
          'Response._wsgi_headers', 'falcon.asgi.Response._asgi_headers', 'falcon.request_helpers._parse_cookie_header (echo)',
          'falcon.response_helpers._format_content_disposition', 'falcon.util.misc.secure_filename']
 STUBS = [
+    'clock: http.cookies.time() returns the constant 1e9 (2001-09-09T01:46:40Z), so an unset cookie must carry exactly expires = that instant - 1 s',
     'header names come from a menu of casings by symbolic index (names are dict keys); values are symbolic strings',
     'cookie names from a menu (legal, illegal, non-ASCII); cookie values symbolic',
     'URI encoders inside falcon.response / response_helpers re-created over the arithmetic per-byte model (validated in C10)',
@@ -134,8 +148,10 @@ def map_case(ops, ni, vals, nums, asgi):
             resp.unset_cookie('c%d' % (ni[k] % 2))
             cookies['c%d' % (ni[k] % 2)] = ''
         elif op == 10:
-            resp.append_header(COOKIE_HDR[ni[k] % 3], 'r=1')
-            raw_cookies.append('r=1')
+            # a raw cookie line that may share its NAME with a helper-written cookie (a different Path makes it a distinct cookie)
+            rawline = 'c%d=raw; Path=/x' % (ni[k] % 2)
+            resp.append_header(COOKIE_HDR[ni[k] % 3], rawline)
+            raw_cookies.append(rawline)
         elif op == 11:
             # Set-Cookie can be neither read, overwritten nor deleted through the plain-header calls
             which = ni[k] % 3
@@ -182,11 +198,15 @@ def map_case(ops, ni, vals, nums, asgi):
     if len(sc) != len(cookies) + len(raw_cookies):
         return fail(lambda: '%d Set-Cookie lines for %d cookies + %d raw' % (len(sc), len(cookies), len(raw_cookies)))
     for cname, cval in cookies.items():
-        mine = [line for line in sc if line.startswith(cname + '=')]
+        mine = [line for line in sc if line.startswith(cname + '=') and line not in raw_cookies]
         if len(mine) != 1:
-            return fail(lambda: 'cookie %s has %d Set-Cookie lines' % (cname, len(mine)))
+            return fail(lambda: 'cookie %s has %d Set-Cookie lines of its own (all lines: %r)' % (cname, len(mine), sc))
         if cval == '' and 'expires=' not in mine[0].lower():
             return fail(lambda: 'unset cookie %s is not expired: %r' % (cname, mine[0]))
+    for rawline in raw_cookies:
+        if sc.count(rawline) != raw_cookies.count(rawline):
+            return fail(lambda: 'raw Set-Cookie line %r emitted %d times, appended %d times (all lines: %r)' % (
+                rawline, sc.count(rawline), raw_cookies.count(rawline), sc))
     return 1
 
 
@@ -320,8 +340,8 @@ def unset_case(ci, domain, path, after_set, asgi):
     if cname != name or cvalue not in ('', '""'):
         return fail(lambda: 'unset cookie line %r' % (lines[0],))
     exp = attrs.get('expires')
-    if not exp or '1970' not in exp and '1969' not in exp:
-        return fail(lambda: 'unset cookie is not expired in the past: %r' % (lines[0],))
+    if exp != 'Sun, 09 Sep 2001 01:46:39 GMT':
+        return fail(lambda: 'unset cookie is not expired (expires must lie in the past of the clock, 2001-09-09 01:46:40): %r' % (lines[0],))
     if (domain and attrs.get('domain') != domain) or (path and attrs.get('path') != path):
         return fail(lambda: 'unset_cookie lost domain/path: %r' % (lines[0],))
     return 1
@@ -465,7 +485,7 @@ def partitions(tier, seed):
             pre = ['0 <= i%d < %d' % (k, max(len(NAMES), len(TYPED)) if ops[k] in (5, 6) else len(NAMES)) for k in sym]
             pre += ['len(v%d) <= %d' % (k, 1 if q else 2) for k in range(n)] + ['0 <= num <= 2']
             P.append(_part('map_%s_%s' % ('asgi' if asgi else 'wsgi', '-'.join(str(o) for o in ops)), args, pre,
-                           'map_case(%r, [%s], [%s], [%s], %d)' % (ops, ', '.join(('i%d' % k) if k in sym else str(k % 2) for k in range(n)),
+                           'map_case(%r, [%s], [%s], [%s], %d)' % (ops, ', '.join(('i%d' % k) if k in sym else '0' for k in range(n)),
                                                                    ', '.join('v%d' % k for k in range(n)),
                                                                    ', '.join('num' for k in range(n)), asgi),
                            150 if q else 500,
